@@ -93,6 +93,70 @@ fn run_suite<S: ShortGroupSignatureScheme>(em: &mut Emitter, base: &mut Rng, sui
     }
 }
 
+/// random graphs of equality statements over claims that all hold the same value (both hashed
+/// positions of 2..3 credentials), statements listed in random order
+fn equality_graphs<S: ShortGroupSignatureScheme>(em: &mut Emitter, base: &mut Rng, suite: &str) {
+    use credx::claim::*;
+    use credx::statement::*;
+    use indexmap::IndexMap;
+    let off = if suite == "bbs" { 0 } else { 1 };
+    for k in 0..em.n(12, 200) {
+        if !em.mine(2 * k + off) {
+            continue;
+        }
+        let rng = &mut base.sub(2_000_000 + (2 * k + off) as u64);
+        let n_creds = 2 + rng.below(2) as usize;
+        let mix = Mix { n_creds, n_claims: 6, disclosed: (0..n_creds).map(|_| vec![]).collect(), age: 30, ..Default::default() };
+        let mut scn = Scn::<S>::build(rng, &mix);
+        for c in 0..n_creds {
+            let mut claims = scn.bundles[c].credential.claims.clone();
+            claims[0] = RevocationClaim::from(format!("g-{}-{}", k, c)).into();
+            claims[1] = HashedClaim::from("John Doe").into();
+            claims[5] = HashedClaim::from("John Doe").into();
+            let b = scn.issuers[c].sign_credential(&claims).unwrap();
+            scn.credentials.insert(scn.sig_ids[c].clone(), b.credential.clone().into());
+            scn.bundles[c] = b;
+        }
+        let mut stmts: Vec<Statements<S>> = scn
+            .schema
+            .statements
+            .values()
+            .map(|s| match s {
+                Statements::Signature(ss) => {
+                    let mut t = (**ss).clone();
+                    let idx = scn.sig_ids.iter().position(|x| x == &t.id).unwrap();
+                    t.issuer = scn.bundles[idx].issuer.clone();
+                    t.into()
+                }
+                o => o.clone(),
+            })
+            .collect();
+        let n_eq = 2 + rng.below(4) as usize;
+        let mut desc = vec![];
+        for e in 0..n_eq {
+            let mut m = IndexMap::new();
+            let mut order: Vec<usize> = (0..n_creds).collect();
+            rng.shuffle(&mut order);
+            let width = 2 + rng.below((n_creds - 1) as u64) as usize;
+            for c in order.into_iter().take(width) {
+                m.insert(scn.sig_ids[c].clone(), *rng.pick(&[1usize, 5]));
+            }
+            desc.push(format!("{:?}", m));
+            stmts.push(EqualityStatement { id: format!("eq{}", e), ref_id_claim_index: m }.into());
+        }
+        scn.schema = credx::presentation::PresentationSchema::new_with_id(&stmts, "eqgraph");
+        em.oracle_case(&format!("{} equality-graph {} {:?}", suite, k, desc));
+        em.count("equality-graph");
+        let ok = match scn.create() {
+            Out::Ok(p) => scn.verify(&p).is_ok(),
+            _ => false,
+        };
+        if !ok {
+            em.violation("equality-graph-rejected", format!("{}: honest presentation over equal claims with equality statements {:?} is not accepted", suite, desc), scn.replay(json!({"suite": suite, "equalities": desc})));
+        }
+    }
+}
+
 pub fn gen_c03(em: &mut Emitter, rng: &mut Rng) {
     em.rule = "random well-formed scenarios (1..3 credentials from distinct issuers, 3..6 claims of all five types, random disclosure subsets, \
                statement graphs over revocation / membership / equality / commitment / range (all bound patterns) / verifiable encryption (with and \
@@ -101,4 +165,6 @@ pub fn gen_c03(em: &mut Emitter, rng: &mut Rng) {
     let n = em.n(14, 400);
     run_suite::<Bbs>(em, rng, "bbs", n);
     run_suite::<Ps>(em, rng, "ps", n);
+    equality_graphs::<Bbs>(em, rng, "bbs");
+    equality_graphs::<Ps>(em, rng, "ps");
 }
